@@ -17,8 +17,8 @@
              DESIGN.md C06) is not proved; it is covered by the joined-vs-individual comparison on the implementation
              (cancel -semis).  Quoted identifiers ("…", `…`) containing ';' are covered by the lexer correspondence and, for
              plain ASCII bodies, by C05's follow-independence lemma for quoted tokens. *)
-From Coq Require Import List NArith.
-From DC Require Import Base.Item Gen.TokenTable Lexer.LexerModel Lexer.LexerStringsSpec Lexer.LexerStrings
+From Coq Require Import List NArith String.
+From DC Require Import Gen.ParserState Base.Item Gen.TokenTable Lexer.LexerModel Lexer.LexerStringsSpec Lexer.LexerStrings
                        Lexer.LexerLayoutSpec Lexer.LexerLayout.
 Import ListNotations.
 
@@ -31,6 +31,16 @@ Print Assumptions C06_semicolon_inside_string_literal.
 Theorem C06_semicolon_inside_comment : forall w b : list N, is_sep w -> lex_sig_raw (w ++ b) = lex_sig_raw b.
 Proof. exact F1_leading. Qed.
 Print Assumptions C06_semicolon_inside_comment.
+
+(* "Nothing carries over from one statement to the next": the state of a Parser is exactly the token window, the error
+   list, the lexer and the verification counter; the lexer's is the reader, the current rune, the position and the eof flag
+   (regenerated from the struct declarations on every run: a new field — a mode flag, a counter, a cache — breaks this and
+   must be argued not to leak between statements). *)
+Theorem C06_parser_state_is_window_and_errors :
+  parser_struct_fields = ["lexer"; "current"; "peek"; "peekPeek"; "errors"; "verif"]%string /\
+  lexer_struct_fields = ["reader"; "source"; "ch"; "pos"; "eof"]%string.
+Proof. split; reflexivity. Qed.
+Print Assumptions C06_parser_state_is_window_and_errors.
 
 (* non-vacuity: "-- a;b\n" and "/* ; /* ; */ */" are separators, and 'a;b' is one STRING *)
 Example C06_comment_with_semicolon_is_a_separator :
